@@ -81,97 +81,4 @@ mod verif_write_anylen {
         kani::cover!(!old_failed && !w.grow_failed && len + slen > cap && slen > 1000);
         kani::cover!(!old_failed && !w.grow_failed && slen > 0 && len + slen <= cap && cap > 1_000_000);
     }
-
-    // ---- fixed-size caller buffer of every size: one arbitrary chunk + flush
-    // (a second chunk is the step contract above: sticky failure / append; two symbolic-size chunks in one harness make
-    //  Kani drop the tail of the harness - caught by the end-of-harness cover - so the sequence part is left to the lemma)
-    #[kani::proof]
-    #[kani::unwind(2)]
-    fn simple_write_anylen() {
-        let n: usize = kani::any();
-        kani::assume(n >= 1 && n <= MAX);
-        let mut v: Vec<u8> = alloc::vec![0u8; n];
-        let buf = v.as_mut_ptr();
-        core::mem::forget(v);
-        // the caller's buffer holds arbitrary garbage at one symbolic position
-        let g: usize = kani::any();
-        let gb: u8 = kani::any(); // (an untyped `kani::any()` in the store made Kani drop the rest of the harness)
-        if g < n {
-            unsafe { *buf.add(g) = gb; }
-        }
-        let mut w = unsafe { diplomat_simple_write(buf, n) };
-        assert!(w.cap == n - 1 && w.len == 0 && !w.grow_failed && w.buf == buf);
-        let l1: usize = kani::any();
-        kani::assume(l1 <= MAX);
-        let mut c1: Vec<u8> = alloc::vec![0u8; l1];
-        let j1: usize = kani::any();
-        let b1: u8 = kani::any();
-        if j1 < l1 {
-            c1[j1] = b1;
-        }
-        let s1 = unsafe { core::str::from_utf8_unchecked(&c1[..]) };
-        assert!(w.write_str(s1).is_ok());
-        w.flush();
-        let fit1 = l1 <= n - 1;
-        let exp_len = if fit1 { l1 } else { 0 };
-        assert!(w.len == exp_len && w.grow_failed == !fit1 && w.buf == buf && w.cap == n - 1);
-        if fit1 && j1 < l1 {
-            assert!(unsafe { *buf.add(j1) } == b1);
-        }
-        // NUL terminator inside the caller's buffer, directly after the accepted content; flush idempotent
-        assert!(exp_len <= n - 1 && unsafe { *buf.add(exp_len) } == 0);
-        w.flush();
-        assert!(w.len == exp_len && unsafe { *buf.add(exp_len) } == 0);
-        assert!(diplomat_buffer_write_get_bytes(&w).is_null() == w.grow_failed);
-        assert!(diplomat_buffer_write_len(&w) == if w.grow_failed { 0 } else { exp_len });
-        kani::cover!(fit1 && l1 > 1000 && n > 1_000_000);
-        kani::cover!(fit1 && l1 == n - 1);
-        kani::cover!(!fit1);
-    }
-
-    // ---- Rust-owned growable writer of every capacity, already holding `len` bytes: one arbitrary chunk, then destroy
-    #[kani::proof]
-    #[kani::unwind(2)]
-    fn buffer_write_anylen() {
-        let cap: usize = kani::any();
-        kani::assume(cap <= MAX);
-        let wp = diplomat_buffer_write_create(cap);
-        let w = unsafe { &mut *wp };
-        assert!(w.cap == cap && w.len == 0 && !w.grow_failed);
-        // state after earlier writes: `len` bytes present, one of them symbolic at a symbolic position
-        let len: usize = kani::any();
-        kani::assume(len <= cap);
-        let i: usize = kani::any();
-        let old_i: u8 = kani::any();
-        if i < len {
-            unsafe { *w.buf.add(i) = old_i; }
-        }
-        w.len = len;
-        let l1: usize = kani::any();
-        kani::assume(l1 <= MAX);
-        let mut c1: Vec<u8> = alloc::vec![0u8; l1];
-        let j1: usize = kani::any();
-        let b1: u8 = kani::any();
-        if j1 < l1 {
-            c1[j1] = b1;
-        }
-        let s1 = unsafe { core::str::from_utf8_unchecked(&c1[..]) };
-        assert!(w.write_str(s1).is_ok());
-        w.flush();
-        // this writer's grow never fails: old content kept (also across reallocation), chunk appended
-        assert!(!w.grow_failed && w.len == len + l1 && w.len <= w.cap);
-        assert!(diplomat_buffer_write_len(w) == len + l1);
-        let p = diplomat_buffer_write_get_bytes(w);
-        assert!(!p.is_null() && p == w.buf);
-        if i < len {
-            assert!(unsafe { *p.add(i) } == old_i);
-        }
-        if j1 < l1 {
-            assert!(unsafe { *p.add(len + j1) } == b1);
-        }
-        unsafe { diplomat_buffer_write_destroy(wp) };
-        kani::cover!(cap == 0 && l1 > 0);
-        kani::cover!(len + l1 > cap && len > 0 && l1 > 1000, "growth with old content");
-        kani::cover!(len + l1 <= cap && l1 > 1000, "no growth");
-    }
 }
